@@ -44,6 +44,9 @@ type RaceCase struct {
 	QueryMs  int        `json:"query_ms"`
 	StdLog   bool       `json:"std_log"`
 	Optional []string   `json:"optional"`
+	// Overlap: the next epoch is served by another goroutine as soon as
+	// Shutdown returned, whether or not the previous Serve call has
+	Overlap bool `json:"overlap,omitempty"`
 }
 
 // RaceScenario is the scenario of C16.
@@ -54,6 +57,7 @@ func (RaceScenario) Name() string { return "race" }
 func (RaceScenario) GenCase(r *rand.Rand, prop string) interface{} {
 	c := &RaceCase{Workers: pick(r, 1, 2, 3, 4, 8), InCh: pick(r, 2, 8, 1024), Store: chance(r, 50), Epochs: 1, QueryMs: pick(r, 50, 1000)}
 	if chance(r, 40) {
+		c.Overlap = chance(r, 50)
 		c.Epochs = 2
 	}
 	for i := 0; i < c.Epochs; i++ {
@@ -128,6 +132,8 @@ type raceRun struct {
 	nextReq int
 	nextQ   int
 	started [4]bool
+	servRet [4]bool // the Serve call of the epoch has returned
+	shutRet [4]bool // the Shutdown of the epoch has returned
 	epoch   int
 }
 
@@ -160,6 +166,19 @@ func (rr *raceRun) conn() *simconn.Conn { return rr.conns[rr.cur] }
 
 //go:norace
 func (rr *raceRun) setCur(i int) { rr.cur = i }
+
+//go:norace
+func (rr *raceRun) setServeReturned(i int) { rr.servRet[i] = true }
+
+//go:norace
+func (rr *raceRun) setShutdownReturned(i int) { rr.shutRet[i] = true }
+
+// mayServe reports whether the Serve call of epoch i may be made.
+//
+//go:norace
+func (rr *raceRun) mayServe(i int, overlap bool) bool {
+	return i == 0 || rr.servRet[i-1] || (overlap && rr.shutRet[i-1])
+}
 
 //go:norace
 func (rr *raceRun) curIdx() int { return rr.cur }
@@ -248,6 +267,14 @@ func (RaceScenario) Execute(sim *sched.Sim, ci interface{}, prop string, race bo
 			r.OK(nil)
 		}),
 	)
+	// listeners run on the goroutine that emits the event, which for events
+	// from foreign goroutines is not serialised with the resource's group:
+	// they only read what they are given
+	svc.AddListener("model.$id", func(ev *res.Event) {
+		if ev.Resource.ResourceName() == "" || (ev.Name == "change" && ev.OldValues == nil && ev.NewValues == nil) {
+			panic("listener: empty event")
+		}
+	})
 	// one shared group
 	svc.Handle("shared.$id", res.Group("shared"),
 		res.GetCollection(func(r res.CollectionRequest) { handler(8, true)(r); r.Collection([]int{1}) }),
@@ -294,8 +321,15 @@ func (RaceScenario) Execute(sim *sched.Sim, ci interface{}, prop string, race bo
 		cn.OnPublish = rr.noteQuerySubject
 		rr.conns[i] = cn
 	}
-	serve := sim.Go("serve", func() {
-		for i := 0; i < c.Epochs; i++ {
+	var serves []*sched.Task
+	for i := 0; i < c.Epochs && i < len(rr.conns); i++ {
+		i := i
+		name := "serve"
+		if i > 0 {
+			name = "serve" + strconv.Itoa(i+1)
+		}
+		serves = append(serves, sim.Go(name, func() {
+			sim.Yield("serve.wait", strconv.Itoa(i))
 			for try := 0; try < 50; try++ {
 				rr.setCur(i)
 				err := svc.Serve(rr.connAt(i))
@@ -304,8 +338,9 @@ func (RaceScenario) Execute(sim *sched.Sim, ci interface{}, prop string, race bo
 					break
 				}
 			}
-		}
-	})
+			rr.setServeReturned(i)
+		}))
+	}
 	life := sim.Go("life", func() {
 		for i := 0; i < c.Epochs; i++ {
 			for try := 0; try < 30; try++ {
@@ -313,6 +348,7 @@ func (RaceScenario) Execute(sim *sched.Sim, ci interface{}, prop string, race bo
 				err := svc.Shutdown()
 				sim.Yield("call.return", "shutdown")
 				if err == nil {
+					rr.setShutdownReturned(i)
 					break
 				}
 			}
@@ -367,13 +403,22 @@ func (RaceScenario) Execute(sim *sched.Sim, ci interface{}, prop string, race bo
 	steps := 0
 	for ; steps < 20000; steps++ {
 		sim.Wait()
-		allDone := serve.IsDone() && life.IsDone()
+		allDone := life.IsDone()
+		for _, t := range serves {
+			if !t.IsDone() {
+				allDone = false
+			}
+		}
 		for _, t := range tasks {
 			if !t.IsDone() {
 				allDone = false
 			}
 		}
 		filter := func(t *sched.Task) bool {
+			if t.Point == "serve.wait" {
+				ep, _ := strconv.Atoi(t.Arg)
+				return rr.mayServe(ep, c.Overlap)
+			}
 			if t != life || t.Point != "life.wait" {
 				return true
 			}
